@@ -1,7 +1,8 @@
 (* Dispatch.v -- one entry point per property for the OCaml driver. *)
 From Coq Require Import ZArith List.
 From CiwV Require Import Sx Sched.
-From CiwV Require Acc.C01 Acc.C02 Acc.C04 Acc.C05 Acc.C06 Acc.C07 Acc.C08 Acc.C12 Acc.C18.
+From CiwV Require Acc.C01 Acc.C02 Acc.C04 Acc.C05 Acc.C06 Acc.C07 Acc.C08 Acc.C10 Acc.C12 Acc.C18.
+From CiwV Require Acc.C17.
 Import ListNotations.
 Open Scope Z_scope.
 
@@ -14,7 +15,9 @@ Definition dispatch (name : Z) (s : sx) : verdict :=
   | 6 => C06.run s
   | 7 => C07.run s
   | 8 => C08.run s
+  | 10 => C10.run s
   | 12 => C12.run s
+  | 17 => C17.run s
   | 18 => C18.run s
   | _ => BadInput (-1)
   end.
@@ -43,5 +46,6 @@ Definition dispatch_model (name : Z) (s : sx) : sx :=
       end
     | _ => L []
     end
+  | 170 => C17.sp_model s   (* state_probabilities over Q *)
   | _ => L []
   end.
